@@ -122,6 +122,9 @@ func FillCol(rng *SplitMix, name string, k Kind, n, card int, decl []string) Col
 		c.I = make([]int, n)
 		for i := range c.I {
 			c.I[i] = rng.Intn(card) - card/2
+			if rng.Intn(32) == 0 {
+				c.I[i] = []int{1 << 53, 1<<53 + 1, 1 << 60, 1<<60 + 1, math.MaxInt64, math.MaxInt64 - 1, math.MinInt64, math.MinInt64 + 1}[rng.Intn(8)]
+			}
 		}
 	case KFloat:
 		c.F = make([]float64, n)
@@ -134,6 +137,10 @@ func FillCol(rng *SplitMix, name string, k Kind, n, card int, decl []string) Col
 				c.F[i] = math.Copysign(0, -1)
 			default:
 				c.F[i] = float64(v-card/2) / 2
+				// now and then a value whose sums round (so that the order of summation shows)
+				if rng.Intn(16) == 0 {
+					c.F[i] = []float64{0.1, 0.2, 0.3, 1e100, -1e100, 1.0 / 3, 1e16, 1}[rng.Intn(8)]
+				}
 			}
 		}
 	case KBool:
